@@ -16,7 +16,7 @@ func SetDevelopmentMode(b bool) { developmentMode = b }
     },
     'watch': {
         'pkg': 'zzverif/worlds/watch',
-        'rewrite': [('cmd/templ/generatecmd', 'sync,os'), ('parser/v2', 'os'), ('cmd/templ/generatecmd/watcher', 'sync')],
+        'rewrite': [('cmd/templ/generatecmd', 'sync,os'), ('parser/v2', 'os'), ('cmd/templ/generatecmd/watcher', 'sync'), ('runtime', 'os')],
         'needs_templ': True,
         'prep_hook': 'watch_corpus',
         'extra_dirs': ['watchgen'],
